@@ -16,7 +16,7 @@ READS = [None, ("rb", 5, False), ("rb", 4, True), ("ri", 5, False), ("ri", 4, Tr
 LATER = [("rb", 2, False), ("rb", 3, True), ("ri", 2, False), ("ru", b"\n"), ("rur",), ("ruc",)]
 CAUSES_CONNECTED = ["close", "close_exc", "eof", "reset_read", "eio_read", "epipe_write", "eio_write"]
 CAUSES_CONNECTING = ["close", "close_exc", "so_error"]
-DATA = [b"", b"x", b"xy\nzzzzzz"]
+DATA = [b"", b"x", b"xy\nzzzzzz", b"xxxxa\n\n"]     # the last one is used with read_chunk_size=4
 MODES = ["none", "separate", "together"]
 
 
@@ -62,7 +62,7 @@ def run(case):
     obs = {"futs": {}, "cb": 0, "cb_all_done": None, "later": None, "write_after": None, "counts": {}}
     with World() as w:
         sock = w.socket(connected=not connecting)
-        s = IOStream(sock)
+        s = IOStream(sock, read_chunk_size=4) if di == 3 else IOStream(sock)
         tracked = {}
 
         def track(name, f):
@@ -290,7 +290,7 @@ def all_cases():
                 for nw in (0, 1, 2):
                     for cause in causes:
                         for mode in MODES:
-                            for di in ((0,) if mode == "none" else (1, 2)):
+                            for di in ((0,) if mode == "none" else (1, 2, 3)):
                                 if connecting and mode != "none":
                                     continue
                                 if cause in ("epipe_write", "eio_write") and nw == 0:
